@@ -361,6 +361,15 @@ func BVSub(a, b *Term) *Term {
 	if a == b {
 		return BV(0, a.width)
 	}
+	// (x + y) - y = x ; (x + y) - x = y
+	if a.op == "bvadd" && len(a.args) == 2 {
+		if a.args[1] == b {
+			return a.args[0]
+		}
+		if a.args[0] == b {
+			return a.args[1]
+		}
+	}
 	return bvBin("bvsub", a, b, func(x, y *big.Int, w int) *big.Int {
 		r := new(big.Int).Sub(x, y)
 		return r.Mod(r, new(big.Int).Lsh(big.NewInt(1), uint(w)))
